@@ -7,6 +7,9 @@ byte (plus one failing round).
 namespace Hive.Stream
 open Hive.Dec
 
+@[simp] theorem cost_empty_alloc : ({} : Cost).alloc = 0 := rfl
+@[simp] theorem cost_empty_iters : ({} : Cost).iters = 0 := rfl
+
 /-! ### lengths around readFull -/
 
 theorem readFullAux_fail (cs : List Nat) (n : Nat) (rest racc : Bytes) (h : rest.length < n) :
@@ -85,7 +88,7 @@ theorem growAux_cost (n : Nat) (f : Nat) (acc : Bytes) (rd : Rd) (a : Nat)
                 = (some (acc ++ b), rd', a + (acc.length + min (n - acc.length) acc.length)) := by
               cases f with
               | zero => rfl
-              | succ f => simp [growAux, hlt2]
+              | succ f => simp only [growAux, hlt2, ↓reduceIte]
             rw [hret]
             simp only [List.length_append] at hlt2
             exact ⟨by simp only; omega, by simp only; omega⟩
@@ -289,9 +292,9 @@ theorem op_good : (op : ROp) → ∀ rd, GoodS (runOp op rd) rd
         refine ⟨Nat.le_trans hg.len_le hl, fun hok => ?_, ?_, hg.np⟩
         · have := hg.ok hok
           have := hg.len_le
-          simp only [Cost.add_alloc, cost_empty_alloc] at *; omega
+          simp only [Cost.add_alloc] at *; omega
         · have := hg.all
-          simp only [Cost.add_alloc, cost_empty_alloc] at *; omega
+          simp only [Cost.add_alloc] at *; omega
 theorem prog_good : (p : RProg) → ∀ rd, GoodS (runProg p rd) rd
   | .nil, rd => goodS_free (by simp [runProg]) (by simp [runProg]) (by simp [runProg])
   | .cons op rest, rd => by
@@ -309,6 +312,381 @@ theorem prog_good : (p : RProg) → ∀ rd, GoodS (runProg p rd) rd
       · have := h2.all
         have := h1.len_le
         simp only [Cost.add_alloc]; omega
+    · exact h1
+end
+
+/-! ### iterations -/
+
+/-- bytes a successful reader call consumes at least -/
+def ROp.minSize : ROp → Nat
+  | .num w => w
+  | .bool => 1
+  | .arr n => n
+  | .bytes n => min n.toNat 1
+  | .bws lp => lp.width
+  | .obj n _ => min n.toNat 1
+  | .ows lp _ => lp.width
+  | .peek _ => 0
+  | .coll lp _ => lp.width
+
+def RProg.minSize : RProg → Nat
+  | .nil => 0
+  | .cons op rest => op.minSize + rest.minSize
+
+mutual
+/-- every item program of every collection has a positive minimum size -/
+def ROp.pos : ROp → Bool
+  | .coll _ item => decide (1 ≤ item.minSize) && item.pos
+  | _ => true
+def RProg.pos : RProg → Bool
+  | .nil => true
+  | .cons op rest => op.pos && rest.pos
+end
+
+mutual
+/-- 1 + nesting depth of collections -/
+def ROp.K : ROp → Nat
+  | .coll _ item => item.K + 1
+  | _ => 1
+def RProg.K : RProg → Nat
+  | .nil => 1
+  | .cons op rest => max op.K rest.K
+end
+
+theorem readBytes_min (n : Int) (rd : Rd) (h : (readBytes n rd).1.isSome) :
+    min n.toNat 1 ≤ rd.rest.length - (readBytes n rd).2.1.rest.length := by
+  by_cases hneg : n < 0
+  · simp [readBytes, hneg] at h
+  · simp only [readBytes, hneg, if_false] at h ⊢
+    have hrl := readFull_len (min n.toNat prealloc) rd
+    cases hr : readFull (min n.toNat prealloc) rd with
+    | mk ob rd' =>
+      rw [hr] at hrl h
+      cases ob with
+      | none => simp at h
+      | some b =>
+        obtain ⟨hlen, hb⟩ := hrl.2 b rfl
+        simp only at hlen hb ⊢
+        have hp : 1 ≤ prealloc := by simp [prealloc]
+        by_cases h0 : n.toNat = 0
+        · simp [h0]
+        · have := (growAux_cost n.toNat n.toNat b rd' (min n.toNat prealloc) (by omega) (by omega)).1
+          omega
+
+/-- a successful call consumed at least its static minimum -/
+def MinS (m : Nat) (o : ROut) (rd : Rd) : Prop := o.res = .ok → m ≤ rd.rest.length - o.rd.rest.length
+
+theorem readObj_min (n : Int) (f : From) (rd0 rd : Rd) (c0 : Cost) (w : Nat)
+    (hle : rd.rest.length + w = rd0.rest.length) : MinS (w + min n.toNat 1) (readObj n f rd c0) rd0 := by
+  have hm := readBytes_min n rd
+  have hc := (readBytes_cost n rd).1
+  simp only [readObj, MinS]
+  cases hr : readBytes n rd with
+  | mk ob rest =>
+    obtain ⟨rd', a⟩ := rest
+    rw [hr] at hm hc
+    cases ob with
+    | none => simp [rfail]
+    | some b =>
+      have := hm (by simp)
+      simp only at this hc ⊢
+      cases applyFrom f b with
+      | none => simp [rfail]
+      | some v => intro _; simp only [rok]; omega
+
+theorem op_min (op : ROp) (rd : Rd) : MinS op.minSize (runOp op rd) rd := by
+  cases op with
+  | num w =>
+    have hrl := readFull_len w rd
+    simp only [runOp, MinS, ROp.minSize]
+    cases hr : readFull w rd with
+    | mk ob rd' =>
+      rw [hr] at hrl
+      cases ob with
+      | none => simp [rfail]
+      | some b => have := (hrl.2 b rfl).1; intro _; simp only [rok] at *; omega
+  | bool =>
+    have hrl := readFull_len 1 rd
+    simp only [runOp, MinS, ROp.minSize]
+    cases hr : readFull 1 rd with
+    | mk ob rd' =>
+      rw [hr] at hrl
+      cases ob with
+      | none => simp [rfail]
+      | some b => have := (hrl.2 b rfl).1; intro _; simp only [rok] at *; omega
+  | arr n =>
+    have hrl := readFull_len n rd
+    simp only [runOp, MinS, ROp.minSize]
+    cases hr : readFull n rd with
+    | mk ob rd' =>
+      rw [hr] at hrl
+      cases ob with
+      | none => simp [rfail]
+      | some b => have := (hrl.2 b rfl).1; intro _; simp only [rok] at *; omega
+  | bytes n =>
+    have hm := readBytes_min n rd
+    simp only [runOp, MinS, ROp.minSize]
+    cases hr : readBytes n rd with
+    | mk ob rest =>
+      obtain ⟨rd', a⟩ := rest
+      rw [hr] at hm
+      cases ob with
+      | none => simp [rfail]
+      | some b => have := hm (by simp); intro _; simpa [rok] using this
+  | bws lp =>
+    have hs := readFixedSize_len lp rd
+    simp only [runOp, MinS, ROp.minSize]
+    cases hr : readFixedSize lp rd with
+    | mk on rest =>
+      obtain ⟨rd', c⟩ := rest
+      rw [hr] at hs
+      simp only at hs
+      cases on with
+      | none => simp [rfail]
+      | some n =>
+        have hw := hs.2.2 (by simp)
+        simp only
+        split
+        · intro _; simp only [rok]; omega
+        · have hc := (readBytes_cost n rd').1
+          cases hb : readBytes (n : Int) rd' with
+          | mk ob rest2 =>
+            obtain ⟨rd'', a⟩ := rest2
+            rw [hb] at hc
+            cases ob with
+            | none => simp [rfail]
+            | some b => intro _; simp only [rok] at *; omega
+  | obj n f =>
+    simp only [runOp, ROp.minSize]
+    have := readObj_min n f rd rd {} 0 (by omega)
+    simpa using this
+  | ows lp f =>
+    have hs := readFixedSize_len lp rd
+    simp only [runOp, ROp.minSize]
+    cases hr : readFixedSize lp rd with
+    | mk on rest =>
+      obtain ⟨rd', c⟩ := rest
+      rw [hr] at hs
+      simp only at hs
+      cases on with
+      | none => simp [MinS, rfail]
+      | some n =>
+        have hw := hs.2.2 (by simp)
+        have := readObj_min n f rd rd' c lp.width hw
+        intro hok
+        have := this hok
+        omega
+  | peek lp => intro _; simp [ROp.minSize]
+  | coll lp item =>
+    have hs := readFixedSize_len lp rd
+    simp only [runOp, ROp.minSize, MinS]
+    cases hr : readFixedSize lp rd with
+    | mk on rest =>
+      obtain ⟨rd', c⟩ := rest
+      rw [hr] at hs
+      simp only at hs
+      cases on with
+      | none => simp [rfail]
+      | some n =>
+        have hw := hs.2.2 (by simp)
+        have hg := (loopItems_good (runProg item) (fun rd'' => prog_good item rd'') n rd').len_le
+        intro _
+        simp only at *; omega
+
+theorem prog_min : (p : RProg) → ∀ rd, MinS p.minSize (runProg p rd) rd
+  | .nil, rd => by intro _; simp [RProg.minSize]
+  | .cons op rest, rd => by
+    have h1 := op_min op rd
+    have hl1 := (op_good op rd).len_le
+    simp only [runProg, RProg.minSize, MinS]
+    split
+    · rename_i hok
+      have h2 := prog_min rest (runOp op rd).rd
+      have hl2 := (prog_good rest (runOp op rd).rd).len_le
+      intro hr
+      have := h1 hok
+      have := h2 hr
+      simp only at *; omega
+    · rename_i hne; intro hr; exact absurd hr hne
+
+/-- a successful call iterated at most `K` times per byte consumed; any call at most `K` times per
+byte available, plus one failing round -/
+structure GoodSI (K : Nat) (o : ROut) (rd : Rd) : Prop where
+  ok : o.res = .ok → o.cost.iters ≤ K * (rd.rest.length - o.rd.rest.length)
+  all : o.cost.iters ≤ K * (rd.rest.length + 1)
+
+theorem GoodSI.mono {K K' : Nat} {o : ROut} {rd : Rd} (h : GoodSI K o rd) (hk : K ≤ K') : GoodSI K' o rd :=
+  ⟨fun hr => Nat.le_trans (h.ok hr) (Nat.mul_le_mul_right _ hk), Nat.le_trans h.all (Nat.mul_le_mul_right _ hk)⟩
+
+theorem goodSI_zero {K : Nat} {o : ROut} {rd : Rd} (h : o.cost.iters = 0) : GoodSI K o rd :=
+  ⟨fun _ => by omega, by omega⟩
+
+theorem loopItems_I (body : Rd → ROut) (K : Nat) (hb : ∀ rd, GoodSI K (body rd) rd)
+    (hg : ∀ rd, GoodS (body rd) rd) (hm : ∀ rd, MinS 1 (body rd) rd) (k : Nat) (rd : Rd) :
+    GoodSI (K + 1) (loopItems body k rd) rd := by
+  induction k generalizing rd with
+  | zero => exact goodSI_zero (by simp [loopItems])
+  | succ k ih =>
+    have h1 := hb rd
+    have hl1 := (hg rd).len_le
+    simp only [loopItems]
+    split
+    · rename_i hok
+      have h2 := ih (body rd).rd
+      have hl2 := (loopItems_good body hg k (body rd).rd).len_le
+      have hi1 := h1.ok hok
+      have hm1 := hm rd hok
+      constructor
+      · intro hr
+        have hi2 := h2.ok hr
+        simp only [Cost.add_iters]
+        have e := Nat.mul_add (K + 1) (rd.rest.length - (body rd).rd.rest.length)
+          ((body rd).rd.rest.length - (loopItems body k (body rd).rd).rd.rest.length)
+        have e2 : rd.rest.length - (body rd).rd.rest.length +
+            ((body rd).rd.rest.length - (loopItems body k (body rd).rd).rd.rest.length)
+            = rd.rest.length - (loopItems body k (body rd).rd).rd.rest.length := by omega
+        rw [e2] at e
+        rw [e, Nat.succ_mul K (rd.rest.length - (body rd).rd.rest.length)]
+        omega
+      · have hi2 := h2.all
+        simp only [Cost.add_iters]
+        have e := Nat.mul_add (K + 1) (rd.rest.length - (body rd).rd.rest.length) ((body rd).rd.rest.length + 1)
+        have e2 : rd.rest.length - (body rd).rd.rest.length + ((body rd).rd.rest.length + 1) = rd.rest.length + 1 := by
+          omega
+        rw [e2] at e
+        rw [e, Nat.succ_mul K (rd.rest.length - (body rd).rd.rest.length)]
+        omega
+    · rename_i hne
+      refine ⟨fun hr => absurd hr hne, ?_⟩
+      have := h1.all
+      simp only [Cost.add_iters, Nat.succ_mul]; omega
+
+mutual
+theorem op_I : (op : ROp) → op.pos = true → ∀ rd, GoodSI op.K (runOp op rd) rd
+  | .num w, _, rd => goodSI_zero (by
+      simp only [runOp]; cases readFull w rd with | mk ob rd' => cases ob <;> simp [rfail, rok])
+  | .bool, _, rd => goodSI_zero (by
+      simp only [runOp]; cases readFull 1 rd with | mk ob rd' => cases ob <;> simp [rfail, rok])
+  | .arr n, _, rd => goodSI_zero (by
+      simp only [runOp]; cases readFull n rd with | mk ob rd' => cases ob <;> simp [rfail, rok])
+  | .bytes n, _, rd => goodSI_zero (by
+      simp only [runOp]
+      cases readBytes n rd with
+      | mk ob rest => obtain ⟨rd', a⟩ := rest; cases ob <;> simp [rfail, rok])
+  | .bws lp, _, rd => goodSI_zero (by
+      have hs := (readFixedSize_len lp rd).2.1
+      simp only [runOp]
+      cases hr : readFixedSize lp rd with
+      | mk on rest =>
+        obtain ⟨rd', c⟩ := rest
+        rw [hr] at hs
+        simp only at hs
+        subst hs
+        cases on with
+        | none => simp [rfail]
+        | some n =>
+          simp only
+          split
+          · simp [rok]
+          · cases readBytes (n : Int) rd' with
+            | mk ob rest2 => obtain ⟨rd'', a⟩ := rest2; cases ob <;> simp [rfail, rok])
+  | .obj n f, _, rd => goodSI_zero (by
+      simp only [runOp, readObj]
+      cases readBytes n rd with
+      | mk ob rest =>
+        obtain ⟨rd', a⟩ := rest
+        cases ob with
+        | none => simp [rfail]
+        | some b => simp only; cases applyFrom f b <;> simp [rfail, rok])
+  | .ows lp f, _, rd => goodSI_zero (by
+      have hs := (readFixedSize_len lp rd).2.1
+      simp only [runOp]
+      cases hr : readFixedSize lp rd with
+      | mk on rest =>
+        obtain ⟨rd', c⟩ := rest
+        rw [hr] at hs
+        simp only at hs
+        subst hs
+        cases on with
+        | none => simp [rfail]
+        | some n =>
+          simp only [readObj]
+          cases readBytes (n : Int) rd' with
+          | mk ob rest2 =>
+            obtain ⟨rd'', a⟩ := rest2
+            cases ob with
+            | none => simp [rfail]
+            | some b => simp only; cases applyFrom f b <;> simp [rfail, rok])
+  | .peek lp, _, rd => goodSI_zero (by
+      have hs := (readFixedSize_len lp rd).2.1
+      simp only [runOp]
+      cases hr : readFixedSize lp rd with
+      | mk on rest =>
+        obtain ⟨rd', c⟩ := rest
+        rw [hr] at hs
+        simp only at hs
+        subst hs
+        cases on <;> simp [rfail, rok])
+  | .coll lp item, hp, rd => by
+    have hp' : 1 ≤ item.minSize ∧ item.pos = true := by simpa [ROp.pos] using hp
+    have hs := readFixedSize_len lp rd
+    simp only [runOp, ROp.K]
+    cases hr : readFixedSize lp rd with
+    | mk on rest =>
+      obtain ⟨rd', c⟩ := rest
+      rw [hr] at hs
+      simp only at hs
+      obtain ⟨hl, hc, _⟩ := hs
+      subst hc
+      cases on with
+      | none => exact goodSI_zero (by simp [rfail])
+      | some n =>
+        have hloop := loopItems_I (runProg item) item.K (fun rd'' => prog_I item hp'.2 rd'')
+          (fun rd'' => prog_good item rd'')
+          (fun rd'' hok => Nat.le_trans hp'.1 (prog_min item rd'' hok)) n rd'
+        have hll := (loopItems_good (runProg item) (fun rd'' => prog_good item rd'') n rd').len_le
+        constructor
+        · intro hok
+          have := hloop.ok hok
+          have hmono : (item.K + 1) * (rd'.rest.length - (loopItems (runProg item) n rd').rd.rest.length)
+              ≤ (item.K + 1) * (rd.rest.length - (loopItems (runProg item) n rd').rd.rest.length) :=
+            Nat.mul_le_mul_left _ (by omega)
+          simp only [Cost.add_iters, cost_empty_iters] at *; omega
+        · have := hloop.all
+          have hmono : (item.K + 1) * (rd'.rest.length + 1) ≤ (item.K + 1) * (rd.rest.length + 1) :=
+            Nat.mul_le_mul_left _ (by omega)
+          simp only [Cost.add_iters, cost_empty_iters] at *; omega
+theorem prog_I : (p : RProg) → p.pos = true → ∀ rd, GoodSI p.K (runProg p rd) rd
+  | .nil, _, rd => goodSI_zero (by simp [runProg])
+  | .cons op rest, hp, rd => by
+    have hp' : op.pos = true ∧ rest.pos = true := by simpa [RProg.pos] using hp
+    have h1 := (op_I op hp'.1 rd).mono (Nat.le_max_left op.K rest.K)
+    have hl1 := (op_good op rd).len_le
+    simp only [runProg, RProg.K]
+    split
+    · rename_i hok
+      have h2 := (prog_I rest hp'.2 (runOp op rd).rd).mono (Nat.le_max_right op.K rest.K)
+      have hl2 := (prog_good rest (runOp op rd).rd).len_le
+      have hi1 := h1.ok hok
+      constructor
+      · intro hr
+        have hi2 := h2.ok hr
+        simp only [Cost.add_iters]
+        have e := Nat.mul_add (max op.K rest.K) (rd.rest.length - (runOp op rd).rd.rest.length)
+          ((runOp op rd).rd.rest.length - (runProg rest (runOp op rd).rd).rd.rest.length)
+        have e2 : rd.rest.length - (runOp op rd).rd.rest.length +
+            ((runOp op rd).rd.rest.length - (runProg rest (runOp op rd).rd).rd.rest.length)
+            = rd.rest.length - (runProg rest (runOp op rd).rd).rd.rest.length := by omega
+        rw [e2] at e
+        rw [e]; omega
+      · have hi2 := h2.all
+        simp only [Cost.add_iters]
+        have e := Nat.mul_add (max op.K rest.K) (rd.rest.length - (runOp op rd).rd.rest.length)
+          ((runOp op rd).rd.rest.length + 1)
+        have e2 : rd.rest.length - (runOp op rd).rd.rest.length + ((runOp op rd).rd.rest.length + 1)
+            = rd.rest.length + 1 := by omega
+        rw [e2] at e
+        rw [e]; omega
     · exact h1
 end
 
